@@ -3,6 +3,6 @@ CONSTANTS
   T <- TraceT
   StrictA = FALSE
   CheckCat = FALSE
-INVARIANTS NoLeak
+INVARIANTS NoLeak NoLeakInLedger
 POSTCONDITION TraceAccepted
 CHECK_DEADLOCK FALSE
